@@ -316,6 +316,15 @@ func genIdxModel(g GenDesc, class string, outs []Desc) (gd string, flips string,
 			return "", "", false // an empty stencil gives a mesh without vertices: nverts is read off no attribute
 		}
 		return fmt.Sprintf("(GShape %d%%nat %d%%nat %s)", len(g.P2)/2, len(g.P)/3, hx.CoqBool(g.Gen == "extrude_closed_shape")), "[]", true
+	case "bowyer_watson":
+		// Mesh/GenIntern.v bw_mesh: one vertex per input point, Position and TexCoord
+		return fmt.Sprintf("(GBw %d%%nat)", len(g.P2)/2), "[]", true
+	case "marching_sphere", "marching_box", "marching_line":
+		// Mesh/GenIntern.v marching_mesh: interned block vertices, welded: no vertex is unreferenced
+		if len(outs[0].Idx) == 0 && outs[0].NVerts() > 0 {
+			return "", "", false // above the literal cap the indices are not rendered
+		}
+		return "GMarch", "[]", true
 	}
 	return "", "", false
 }
